@@ -33,6 +33,11 @@ def mk(rng, op, dt, row=None):
         sh = (len(x),)
         return {'op': op, 'dt': dt, 'shape': sh, 'x': x, 'g': [rng.dyadic(-2, 2) or 1.0 for _ in x], 'gshape': sh, 'dim': 0, 'labels': [],
                 'aux': [float(rng.randint(0, 1)) for _ in x], 'ashape': sh}
+    if op in ('softmax', 'log_softmax') and row is None and rng.chance(.1):
+        # 0-d operand with dim 0 / -1 (NumPy's max / sum accept these two int axes on a 0-d array and reduce nothing): exp(x - x) / exp(x - x)
+        # at any magnitude
+        return {'op': op, 'dt': dt, 'shape': (), 'x': [rng.pick(MAGS) if rng.chance(.7) else rng.uniform(-1e4, 1e4)], 'g': [rng.dyadic(-2, 2) or 1.0],
+                'gshape': (), 'dim': rng.pick([0, -1]), 'labels': [], 'aux': [0.0], 'ashape': (1,)}
     n, c = rng.randint(1, 3), rng.randint(2, 4)
     x = []
     for _ in range(n):
@@ -206,6 +211,8 @@ def _exact(c):
         t = f(np.array(c['aux'], dtype=np.float64).reshape(c['ashape']))
         y = np.vectorize(lambda v, tt: (1 - tt) * v + mp.log(1 + mp.exp(-v)), otypes=[object])(x, t)
         return y, g * (np.vectorize(sig, otypes=[object])(x) - t)
+    if X.ndim == 0:      # softmax / log_softmax of a 0-d operand: the fibre is the element itself
+        return np.array(mp.mpf(1 if op == 'softmax' else 0), dtype=object), np.array(mp.mpf(0), dtype=object)
     ax = c['dim'] % X.ndim if op != 'cross_entropy' else 1
     xm = np.moveaxis(x, ax, -1)
     mx = np.max(np.moveaxis(X, ax, -1), axis=-1)
